@@ -22,6 +22,9 @@ NS_SMALL = [G, G + ('f',), G + ('C',), G + ('C', 'f')]
 # one declaration kind per name (identifiers are unique within a scope, C05);
 # type parameters and lambdas live in tables of their own and may reuse names
 DECL_KIND = {'f': 'funcs', 'g': 'funcs', 'C': 'classes', 'x': 'vars', 'lambda_0': 'lambdas'}
+# a name may also be declared under a second declaration kind in the same namespace (function and variable,
+# class and function): the shared declaration table is keyed by name only
+SECOND_KIND = {'f': 'vars', 'C': 'funcs'}
 KINDS = ['types', 'funcs', 'lambdas', 'vars', 'classes']
 ALLK = KINDS + ['decls']
 DECLK = ('funcs', 'vars', 'classes')
@@ -30,7 +33,9 @@ DECLK = ('funcs', 'vars', 'classes')
 def tables_for(name):
     """tables an operation on `name` may address"""
     k = DECL_KIND[name]
-    return [k] if k == 'lambdas' else [k, 'types']
+    if k == 'lambdas':
+        return [k]
+    return [k, 'types'] + ([SECOND_KIND[name]] if name in SECOND_KIND else [])
 
 
 class Ref:
@@ -41,6 +46,7 @@ class Ref:
         self.objs = []              # (obj, ns, name, kind) of every added non-None object
         self.removed = set()        # id(obj) explicitly removed
         self.unspec = set()         # id(obj) overwritten or dropped with its namespace
+        self.cross_removed = set()  # id(obj) whose entry in the shared declaration table was removed through another kind
 
     def _tab(self, ns):
         if ns not in self.t:
@@ -52,7 +58,11 @@ class Ref:
         for k in ([kind, 'decls'] if kind in DECLK else [kind]):
             old = tab[k].get(name)
             if old is not None and old is not v:
-                self.unspec.add(id(old))
+                # overwritten in its own table: unspecified; overwritten only in the shared declaration
+                # table by a declaration of another kind: it is still declared
+                if k != 'decls' or tab[kind].get(name) is old or not any(
+                        tab[kk].get(name) is old for kk in DECLK):
+                    self.unspec.add(id(old))
             tab[k][name] = v
         if v is not None:
             self.objs.append((v, ns, name, kind))
@@ -60,11 +70,15 @@ class Ref:
     def remove(self, ns, kind, name):
         if ns not in self.t:
             return
+        own = self.t[ns][kind].get(name)
         for k in ([kind, 'decls'] if kind in DECLK else [kind]):
             if name in self.t[ns][k]:
                 old = self.t[ns][k].pop(name)
                 if old is not None:
-                    self.removed.add(id(old))
+                    if k == 'decls' and old is not own:
+                        self.cross_removed.add(id(old))     # e.g. remove_var(x) while decls[x] is a function
+                    else:
+                        self.removed.add(id(old))
 
     def drop(self, ns):
         if ns in self.t:
@@ -241,7 +255,9 @@ def compare(c, m, NS, NAMES, log):
     for v, ns, name, kind in m.objs:
         if kind == 'types' or id(v) in m.unspec:
             continue          # equal-but-distinct type parameters / overwritten entries: unspecified
-        if id(v) in present:
+        if id(v) in present and id(v) in m.cross_removed:
+            ck('reverse-after-cross-kind-remove', c.get_namespace(v) == ns, (name, kind, ns))
+        elif id(v) in present:
             ck('reverse', c.get_namespace(v) == ns, (name, kind, ns))
         elif id(v) in m.removed:
             ck('reverse-removed', c.get_namespace(v) is None, (name, kind, ns))
@@ -288,7 +304,7 @@ def _finish(eng, c, m, NS, NAMES, log):
     for k, d in bad:
         if k not in seen:
             seen.add(k)
-            obs.append(Ob('%s|%s' % (k, ';'.join(':'.join(map(str, e)) for e in log)), False,
+            obs.append(Ob('%s|%s' % (k, ';'.join(':'.join(map(str, e[:4] if k != 'reverse-after-cross-kind-remove' else e[:1])) for e in log)), False,
                           dict(query=k, detail=str(d), history=[list(map(str, e)) for e in log])))
     obs.append(Ob('all-queries-agree', not bad, None) if not bad else Ob('queries', True))
     return obs
@@ -334,9 +350,7 @@ FUNCS = [Context._add_entity, Context._remove_entity, Context._get_declarations,
          Context._get_declarations_glob, Context.find_namespaces, Context.get_namespaces_decls,
          Context.get_decl, Context.get_lambda, Context.get_declarations_in, Context.get_namespace,
          Context.get_parent, Context.get_parent_class, Context.remove_namespace, ctxmod.get_decl]
-OUT = ('histories longer than K; namespaces deeper than 4 components; the same name used for two '
-       'different declaration kinds (function/variable/class) in one namespace (identifiers are unique '
-       'per scope, C05); reverse lookup of overwritten entries, of entries whose namespace was dropped by '
+OUT = ('histories longer than K; namespaces deeper than 4 components; reverse lookup of overwritten entries, of entries whose namespace was dropped by '
        'remove_namespace and of equal-but-distinct type parameters (unspecified by the statement); which of '
        'several same-named entries a global query returns (any of them is accepted)')
 
